@@ -109,7 +109,7 @@ def classify(runner, monitors, episode):
     return bool(ctxmon.hits), classes
 
 
-CHECK = EpisodeCheck(PROPERTY_ID, episode_st(P), make_monitors, evaluate, classify, quick=700, thorough=12000,
+CHECK = EpisodeCheck(PROPERTY_ID, episode_st(P), make_monitors, evaluate, classify, quick=1100, thorough=16000,
                      suffix_kwargs={'boot_dead': True})
 
 
